@@ -60,6 +60,9 @@ func (l *Lab) buildChecks(pi, bi, gi int, cs *ChecksSpec) *workflow.Checks {
 func (l *Lab) BuildPlan(pi int) *workflow.Plan {
 	ps := &l.sc.Plans[pi]
 	p := &workflow.Plan{Name: fmt.Sprintf("plan p%d", pi), Descr: "generated plan"}
+	if pi == 0 && l.sc.NameKind > 0 {
+		p.Name = planNames[l.sc.NameKind%len(planNames)]
+	}
 	p.BypassChecks = l.buildChecks(pi, -1, 0, ps.Bypass)
 	p.PreChecks = l.buildChecks(pi, -1, 1, ps.Pre)
 	p.ContChecks = l.buildChecks(pi, -1, 2, ps.Cont)
